@@ -720,6 +720,7 @@ pub fn sample_models() -> Vec<String> {
   let trees = vec![
     Ty::CollComp(vec![("a".into(), Ty::Ref(Box::new(Ty::Comp(vec![("a".into(), Ty::Simple(Base::Date, true)), ("b".into(), Ty::Simple(Base::Number, false))])), false)), ("b".into(), Ty::Simple(Base::Number, false))]),
     Ty::CollRef(Box::new(Ty::Ref(Box::new(Ty::Simple(Base::String, true)), true))),
+    Ty::Ref(Box::new(Ty::Ref(Box::new(Ty::Ref(Box::new(Ty::Simple(Base::Number, false)), false)), false)), false),
   ];
   let mut out = vec![];
   for ty in trees {
@@ -736,6 +737,9 @@ pub fn sample_models() -> Vec<String> {
       logic: Some(Expr::lit("In")),
     });
     m.bkms.push(dmn::Bkm { name: "B".into(), type_ref: Some("tT".into()), params: vec![("x".into(), Some("tT".into()))], knowledge: vec![], logic: Expr::lit("x") });
+    out.push(m.to_xml());
+    // the same definitions declared in the opposite order (a referring definition before the one it refers to)
+    m.items.reverse();
     out.push(m.to_xml());
   }
   out
